@@ -77,6 +77,7 @@ public:
     void fault(const char *k) { res.faults[QString::fromLatin1(k)]++; }
     void probe(const char *k) { res.probes[QString::fromLatin1(k)]++; }
     QString ownBare() const { return client->configuration().jidBare(); }
+    std::function<void(SimLink *)> onNewLink;   // lets an engine install its observation hooks on every connection
     int tlsPolicy = 0;   // 0: handshake succeeds, 1: fails, 2: never completes (only explicit ops resolve)
 
 private:
